@@ -243,6 +243,7 @@ def write_evidence(pid, tier, meta, recs, wall, n_viol):
         "negative_controls_refuted": sum(1 for r in recs if r.get("neg_control") is True),
         "reachability_witnesses": sum(1 for r in recs if r.get("reachable") is True),
         "translator_validations_ok": sum(1 for r in recs if r.get("tv") is True),
+        "storage_type_variants_replayed": sum(r.get("dtype_variants", 0) for r in recs),
         "cross_solver": {k: {"agree": sum((r.get("cross_solver") or {}).get(k, {}).get("agree", 0) for r in recs),
                              "unknown_or_timeout": sum((r.get("cross_solver") or {}).get(k, {}).get("unknown", 0) for r in recs)}
                          for k in ("z3-4.8.12", "cvc5")},
